@@ -10,6 +10,7 @@ import (
 	"encoding/pem"
 	"errors"
 	"fmt"
+	"github.com/dadrus/heimdall/internal/rules/provider/httpendpoint"
 	"net"
 	"net/http"
 	"net/http/httptest"
@@ -949,3 +950,53 @@ var (
 	_ = errors.Is
 	_ = heimdall.ErrInternal
 )
+
+// ---- (e) answers of remote systems to background jobs ---------------------------------------------------------------------------
+
+// TestTokenEndpointAnswersToTheRuleProvider: the HTTP endpoint rule provider authenticates with the OAuth2 client
+// credentials grant. Its poll runs on a scheduler goroutine without any recovery, so whatever the token endpoint (a
+// remote system) answers must end in an error of the poll, never in a panic.
+func TestTokenEndpointAnswersToTheRuleProvider(t *testing.T) {
+	rapid.Check(t, func(t *rapid.T) {
+		body := []byte(rapid.SampledFrom(append([]string{`{"access_token":"t","token_type":"Bearer","expires_in":60}`, `{"foo":"bar"}`, `{"error":"invalid_client"}`,
+			`{"access_token":null}`, `{"expires_in":"x"}`, `{"access_token":"t","expires_in":-1}`}, hostileBodies...)).Draw(t, "tokenResponse"))
+		status := rapid.SampledFrom([]int{200, 200, 201, 400, 401, 500}).Draw(t, "status")
+		ct := rapid.SampledFrom([]string{"application/json", "text/plain", ""}).Draw(t, "contentType")
+
+		remote.Set(func(c vkit.Call) vkit.Reply {
+			if strings.HasPrefix(c.Path, "/token") {
+				hdr := map[string]string{}
+				if ct != "" {
+					hdr["Content-Type"] = ct
+				}
+
+				return vkit.Reply{Status: status, Header: hdr, Body: body}
+			}
+
+			return vkit.Reply{Status: 200, Header: map[string]string{"Content-Type": "application/yaml"}, Body: []byte("version: \"1alpha4\"\nname: x\nrules: []\n")}
+		})
+
+		w, err := baseWorld()
+		if err != nil {
+			t.Fatalf("harness: %v", err)
+		}
+
+		prov, fetcher := httpendpoint.VerifNewPollerWithClientCredentials(w.Proc, remote.URL()+"/rules", remote.URL()+"/token")
+
+		vkit.Pending("token endpoint answers %d %q: %s", status, ct, body)
+
+		perr := guarded(func() { _ = prov.Poll(nil, fetcher) })
+
+		vkit.S.Eval()
+		vkit.S.Label(fmt.Sprintf("provider_token_endpoint.status=%d", status))
+		vkit.S.NonTrivial(fmt.Sprintf("ptoken|%d|%s|%x", status, ct, body), map[string]any{"input": "token endpoint response seen by a rule provider", "status": status, "content_type": ct, "body": string(body[:min(len(body), 120)])})
+
+		if perr != nil {
+			t.Fatalf("the answer of the token endpoint crashed the poll of the rule provider (no recovery on that goroutine: the process dies)\nstatus=%d content-type=%q body=%q\n%v", status, ct, body, perr)
+		}
+
+		if !stableStillServed(w) {
+			t.Fatalf("previously loaded rules are gone")
+		}
+	})
+}
